@@ -36,6 +36,11 @@ def step (_ : Unit) (fields : List String) (impl : String) : Unit × Reply :=
       let ok := holds nreq (kvs impl)
       ((), ⟨"accepted-by-model=" ++ boolStr ok, ok, true, ok, "-"⟩)
     | none => ((), .bad)
+  | ["pendreconnect"] =>
+    -- a request pending across a resumed session: the table of pending requests belongs to the router, not to the
+    -- connection - the response is delivered like any other (C07_delivery_when_registered)
+    let ok := impl == "resume=true got=1 closed=true ordinary=0 panics=0"
+    ((), ⟨"resume=true got=1 closed=true ordinary=0 panics=0", ok, true, ok, "-"⟩)
   | ["reuse", _, _] =>
     -- a re-used id: the answered first request and the pending second one each get exactly their response; the
     -- clean-up of the first request's cancelled context removes nothing of the second (C07_cleanup_only_own)
